@@ -128,7 +128,8 @@ class Update(Machine):
         argv = ["image", "update", "--input-file", host.path("in/" + op["file"]), "--storage-output-file", host.path(s_rel),
                 "--dfu-partition-output-file", host.path(d_rel)]
         if not op["defaults"]:
-            argv += ["--update-candidate-info-address", hex(info), "--dfu-partition-address", str(part), "--dfu-max-caches", str(caches)]
+            argv += ["--update-candidate-info-address", self.num(info, (op["i"], "i")), "--dfu-partition-address",
+                     self.num(part, (op["i"], "p")), "--dfu-max-caches", str(caches)]
 
         def run(fl=()):
             if op["entry"] == "cli":
